@@ -1,6 +1,7 @@
 package props
 
 import (
+	"bytes"
 	"fmt"
 	"os"
 	"path/filepath"
@@ -73,6 +74,23 @@ func corruptSeeds() []Case {
 		}
 		return b
 	})
+	// damage inside the compressed profile, with further chunks following: the
+	// parser has to stay aligned on the chunk stream whatever inflate consumed
+	iccpSpan := func(b []byte) (z0, z1 int) {
+		j := bytes.Index(b, []byte("iCCP"))
+		n := int(b[j-4])<<24 | int(b[j-3])<<16 | int(b[j-2])<<8 | int(b[j-1])
+		return bytes.Index(b, []byte("seed\x00")) + 6, j + 4 + n
+	}
+	mut("png iCCP not a zlib stream", seeds[1], func(b []byte) []byte { z0, _ := iccpSpan(b); b[z0], b[z0+1] = 0, 0; return b })
+	mut("png iCCP zlib FLG check bits wrong", seeds[1], func(b []byte) []byte { z0, _ := iccpSpan(b); b[z0+1] ^= 1; return b })
+	mut("png iCCP reserved deflate block type", seeds[1], func(b []byte) []byte { z0, _ := iccpSpan(b); b[z0+2] |= 0x06; return b })
+	mut("png iCCP deflate data damaged in the middle", seeds[1], func(b []byte) []byte {
+		z0, z1 := iccpSpan(b)
+		b[(z0+z1)/2] ^= 0xFF
+		b[(z0+z1)/2+1] ^= 0xFF
+		return b
+	})
+	mut("png iCCP adler32 wrong", seeds[1], func(b []byte) []byte { _, z1 := iccpSpan(b); b[z1-1] ^= 0x55; return b })
 	mut("png no IHDR", seeds[0], func(b []byte) []byte { copy(b[12:], "iHDR"); return b })
 	mut("png chunk length huge", seeds[0], func(b []byte) []byte { b[33], b[34] = 0xFF, 0xFF; return b })
 	mut("jpeg no SOI", seeds[2], func(b []byte) []byte { b[1] = 0xD9; return b })
